@@ -27,7 +27,7 @@ ASSUMPTIONS = [
 ]
 LEVEL_SCOPE = ("Decides the listed clauses for every order type (piece) over real arithmetic, reporting only definite disagreements; floating-point "
                "rounding and the clauses listed as undecided are not decided.")
-FLOORS = {"M1": 26, "D3": 12, "V1": 6, "I1": 6, "I2": 6}
+FLOORS = {"M1": 26, "D3": 12, "V1": 6, "I1": 6, "I2": 6, "V8": 6}
 
 
 def run(check: Check) -> None:
@@ -55,6 +55,9 @@ def run(check: Check) -> None:
         check.require(dep, "D3", f"{c.name}.tsukamoto/argument", "the Tsukamoto value depends on the activation degree" if dep else
                       "the Tsukamoto value does not depend on its argument", loc(ts))
         c02.kernel_elementwise(check, ts, "V1", f"{c.name}.tsukamoto")
+        from .common import coerce_first
+
+        coerce_first(check, ts, "V8", f"{c.name}.tsukamoto/coerce-first")
     inverse_identity(check)
 
 
